@@ -29,7 +29,7 @@ def schema(ck: Check) -> Schema:
     k = id(ck.repo)
     if k not in _SCHEMA:
         _SCHEMA.clear()
-        _SCHEMA[k] = Schema(ck.repo.module("skepticoin.blockstore"))
+        _SCHEMA[k] = Schema(ck.repo.module("skepticoin.blockstore"), ck.repo)
     return _SCHEMA[k]
 
 
@@ -44,6 +44,8 @@ def select_cols(text: str) -> Optional[Tuple[str, List[str]]]:
 
 def row_col(t: Term) -> Optional[Tuple[str, str]]:
     """('s', ('e', self.sql(<select text>), 'elem'), i)  ->  (table, column)"""
+    if t[0] == "e" and len(t) == 3 and isinstance(t[2], int) and not isinstance(t[2], bool):
+        t = ("s", ("e", t[1], "elem"), C(t[2]))         # the unpacked form of row[i]
     if t[0] == "s" and t[1][0] == "e" and t[2][0] == "c" and isinstance(t[2][1], int):
         it = t[1][1]
         if it[0] == "call" and it[2] and it[2][0][0] == "c" and isinstance(it[2][0][1], str):
@@ -103,7 +105,7 @@ class Writer:
             if e.parts[0][2] != "executemany" or len(e.term[2]) != 2 or e.term[2][0][0] != "c":
                 continue
             text = e.term[2][0][1]
-            ins = [i for i in sch.inserts if i.node.args[0].value == text]
+            ins = [i for i in sch.inserts if sch.text_of.get(id(i.node)) == text]
             if not ins:
                 continue
             lst = e.term[2][1]
@@ -388,7 +390,7 @@ def r08_5(ck: Check) -> None:
     for i, e in enumerate(ex):
         if e.parts[0][2] == "executemany" and e.term[2] and e.term[2][0][0] == "c":
             for ins in sch.inserts:
-                if ins.node.args[0].value == e.term[2][0][1]:
+                if sch.text_of.get(id(ins.node)) == e.term[2][0][1]:
                     order.setdefault(ins.table, i)
     for t in sch.tables.values():
         for cols, rt, rcols in t.fks:
